@@ -86,6 +86,8 @@ pub const FAIL_KINDS: &[&str] = &[
     "errors-in-two-memories",
     "avra-macro-local-label",
     "broken-unused-macros",
+    "error-in-nested-macro",
+    "undef-macro-in-macro",
 ];
 
 /// Devices used by generated programs: (name, forbids mul, forbids jmp, avr8l, flash words, ram, eeprom)
@@ -915,6 +917,19 @@ pub fn gen(r: &mut Rng, pool: &Pool, opts: &GenOpts) -> Program {
                 1 => format!(".equ big{} = 9999999999999999999{}", pool.tag, g.r.below(100000)),
                 _ => format!("    ldi r{}", 16 + g.r.below(16)),
             }])],
+            // the failure happens two or three macro bodies deep: whatever a tree keeps while a
+            // body is being expanded (a depth counter, a stack of names) is left behind by `?`
+            "error-in-nested-macro" => vec![
+                Node::Macro(vec![format!(".macro n{}in", pool.tag), "    nop".to_string(), format!(".error \"{}deep in macros\"", opts.msg_tag), ".endm".to_string()]),
+                Node::Macro(vec![format!(".macro n{}mid", pool.tag), "    nop".to_string(), format!("    n{}in", pool.tag), ".endm".to_string()]),
+                Node::Macro(vec![format!(".macro n{}out", pool.tag), format!("    n{}mid", pool.tag), "    nop".to_string(), ".endm".to_string()]),
+                Node::Lines(vec![format!("    n{}out", pool.tag)]),
+            ],
+            "undef-macro-in-macro" => vec![
+                Node::Macro(vec![format!(".macro u{}mid", pool.tag), "    nop".to_string(), format!("    u{}nowhere r16", pool.tag), ".endm".to_string()]),
+                Node::Macro(vec![format!(".macro u{}out", pool.tag), "    nop".to_string(), format!("    u{}mid", pool.tag), ".endm".to_string()]),
+                Node::Lines(vec![format!("    u{}out", pool.tag)]),
+            ],
             "error-in-macro" => vec![
                 Node::Macro(vec![format!(".macro e{}rr", pool.tag), "    nop".to_string(), format!(".error \"{}in macro\"", opts.msg_tag), ".endm".to_string()]),
                 Node::Lines(vec![format!("    e{}rr", pool.tag)]),
